@@ -477,6 +477,57 @@ Section CCRefine.
     rewrite Ei in R2. unfold st_node in R2. cbn [fst] in R2.
     exists s2. pose proof (reaches_trans F s id n1 out s1 n2 [] s2 R1 R2) as R. rewrite app_nil_r in R. exact R.
   Qed.
+
+  (* ---------------------------------------------------------------- a batched proposal *)
+  Lemma reaches_propose_cc : forall s id c p n pend, nodes s id = n ->
+    exists s1, reaches F s id (fst (fst (handle_cc id c (EvPropose p) n pend))) [] s1.
+  Proof.
+    intros s id c p n pend Hn.
+    assert (Hnop : exists s1, reaches F s id n [] s1) by (exists s; rewrite <- Hn; apply reaches_refl).
+    assert (Hprop : forall q, n_role n = Leader -> exists s1, reaches F s id (propose q n) [] s1).
+    { intros q Hr. destruct (reaches_propose s id n q Hn Hr) as [s1 R1]. unfold propose. rewrite Hr. exists s1. exact R1. }
+    unfold handle_cc. destruct (n_role n) eqn:Er; cbn [fst]; try exact Hnop.
+    destruct (negb (tracked c id)); cbn [fst]; [exact Hnop|].
+    destruct (cc_of_payload p) as [op|]; cbn [fst]; [|apply Hprop; reflexivity].
+    destruct ((n_commit n <? pend) || joint c && negb match op with CcLeave => true | _ => false end
+              || negb (joint c) && match op with CcLeave => true | _ => false end); cbn [fst]; apply Hprop; reflexivity.
+  Qed.
+
+  Lemma reaches_batch : forall id c ps s n pend, nodes s id = n ->
+    exists s1, reaches F s id (fst (batch_cc id c ps n pend)) [] s1.
+  Proof.
+    intros id c. induction ps as [|p ps IH]; intros s n pend Hn; [exists s; cbn; rewrite <- Hn; apply reaches_refl|].
+    cbn [batch_cc]. destruct (reaches_propose_cc s id c p n pend Hn) as [s1 R1].
+    destruct (handle_cc id c (EvPropose p) n pend) as [[n1 out] pend1]. cbn [fst] in R1.
+    destruct (IH s1 n1 pend1 (proj1 (proj2 R1))) as [s2 R2]. exists s2.
+    exact (reaches_trans F s id n1 [] s1 _ [] s2 R1 R2).
+  Qed.
+
+  Lemma exec_batch_sim : forall s id ps pend,
+    mreachable F s ->
+    lenv (n_log (nodes s id)) (n_commit (nodes s id)) ->
+    lenv (n_log (fst (fst (exec_batch boot page1 id ps (nodes s id, pend)))))
+         (n_commit (fst (fst (exec_batch boot page1 id ps (nodes s id, pend))))) ->
+    exists s', reaches F s id (fst (fst (exec_batch boot page1 id ps (nodes s id, pend)))) [] s'.
+  Proof.
+    intros s id ps pend Hreach Henv0 Henv'. set (n := nodes s id) in *.
+    pose proof (mreachable_inv F HF s Hreach) as I.
+    destruct (hK9 _ _ I id) as [H9a _]. unfold nd in H9a. fold n in H9a.
+    unfold exec_batch in *. set (c := node_cfg boot n) in *.
+    destruct (reaches_batch id c ps s n pend eq_refl) as [s1 R1].
+    destruct (batch_cc_shape id c ps n pend) as (_ & _ & Hc & _ & suf & Hl). cbn zeta in Hc, Hl.
+    destruct (batch_cc id c ps n pend) as [n1 pend1]. cbn [fst snd] in *.
+    set (fuel := 2 * length (n_log n1) + 8) in *.
+    destruct (iter fuel (ready_iter page1 id) (n1, c, pend1, n_commit n)) as [[[n2 c2] pend2] a2] eqn:Ei.
+    cbn [fst snd] in *.
+    assert (Hreach1 : mreachable F s1) by (eapply msteps_reachable; [exact Hreach|exact (proj1 R1)]).
+    assert (Hinv : loop_inv (n1, c, pend1, n_commit n)).
+    { unfold loop_inv. split; [|lia]. unfold c, node_cfg. rewrite Hl. rewrite firstn_app_le by exact H9a. reflexivity. }
+    destruct (iter_spec id fuel s1 (n1, c, pend1, n_commit n) Hreach1 (proj1 (proj2 R1)) Hinv) as [s2 R2].
+    { rewrite Ei. unfold st_node. cbn [fst]. exact Henv'. }
+    rewrite Ei in R2. unfold st_node in R2. cbn [fst] in R2.
+    exists s2. exact (reaches_trans F s id n1 [] s1 n2 [] s2 R1 R2).
+  Qed.
 End CCRefine.
 
 (* ------------------------------------------------------------------ HardState monotonicity of the
@@ -513,4 +564,26 @@ Section CCHardState.
     unfold st_node in *. cbn [fst] in *.
     eapply hs_mono_trans; [exact Hh|]. split; [lia|split; [intros _; left; exact B|exact C]].
   Qed.
+
+  Lemma batch_cc_hs : forall c ps n pend, hs_mono n (fst (batch_cc id c ps n pend)).
+  Proof.
+    intros c ps n pend. destruct (batch_cc_shape id c ps n pend) as (A & B & C & _). cbn zeta in A, B, C.
+    split; [lia|split; [intros _; left; exact B|lia]].
+  Qed.
+
+  Theorem exec_batch_hs_mono : forall ps n pend,
+    hs_mono n (fst (fst (exec_batch boot page1 id ps (n, pend)))).
+  Proof.
+    intros ps n pend. unfold exec_batch. set (c := node_cfg boot n).
+    pose proof (batch_cc_hs c ps n pend) as Hh.
+    destruct (batch_cc id c ps n pend) as [n1 pend1]. cbn [fst] in Hh.
+    destruct (iter_hs page1 id (2 * length (n_log n1) + 8) (n1, c, pend1, n_commit n)) as (A & B & C). cbn zeta in *.
+    destruct (iter (2 * length (n_log n1) + 8) (ready_iter page1 id) (n1, c, pend1, n_commit n)) as [[[n2 c2] pend2] a2].
+    unfold st_node in *. cbn [fst] in *.
+    eapply hs_mono_trans; [exact Hh|]. split; [lia|split; [intros _; left; exact B|exact C]].
+  Qed.
+
+  Theorem exec_cce_hs_mono : forall cev n pend,
+    hs_mono n (fst (fst (exec_cce boot page1 id cev (n, pend)))).
+  Proof. intros [ev|ps] n pend; cbn [exec_cce]; [apply exec_cc_hs_mono|apply exec_batch_hs_mono]. Qed.
 End CCHardState.
